@@ -11,6 +11,92 @@ def prop(pid, manifest=None, **kw):
     MANIFEST_TEXT[pid] = manifest
 
 
+E3_ASSUME = ['executed inside a testing/synctest bubble (go1.26.8): virtual clock, synctest.Wait() = every goroutine durably blocked',
+             'select tie-breaks and the run order of goroutines between two quiescent points are chosen by the Go runtime (sampled, not enumerated); oracles accept every outcome the statement allows',
+             'user functions are pure, total and honour ctx; element type int']
+
+prop('C05',
+     level='exploration',
+     rule=('generated: stage (Map pure/lift/try, FMap, Filter, Take with n in {0, <len, =len, >len}, TakeWhile, Partition, Fold with a non-commutative monoid and '
+           'non-zero Empty, ForEach, Void) x input of 0..12 elements (duplicates allowed) x input capacity {0,1,2,3,8,len} x a script of 0..40 environment moves '
+           '(try-send, blocking producer bursts, close, try-receive / drain on each output, batches without an intervening quiescence) executed at quiescent points of a '
+           'synctest bubble, followed by a fair completion phase (all elements offered with the inputs still open, then inputs closed); oracle: list functions on the input; '
+           'delivered is a prefix of the expected list at every receive, equal to it when the output closes, per-argument call counts and call order of the user function, '
+           'number of elements removed from the input (Take/TakeWhile), early close of Take/TakeWhile without waiting for more input, no goroutine of the stage alive after completion; '
+           'non-trivial = input length >= 2 and (capacity < length or a quiescent point with a blocked producer / full buffer); distinct = different canonical scenario'),
+     assumptions=E3_ASSUME,
+     parts=[
+         dict(name='rapid', engine='E3', pkg='pipes', test='TestC05',
+              quick=dict(cases=8000, shards=4), thorough=dict(cases=150000, shards=16, timeout=3000)),
+     ],
+     manifest=dict(
+         engine='E3', design_ref='3/E3, 4/C05',
+         technique='property-based testing (rapid) of environment-move scripts at synctest quiescent points; list-function oracle, prefix invariant, call and consumption counters',
+         level_text=('Every stage is driven by generated schedules of sends, closes and receives applied at quiescent points of a synctest bubble, with all capacities, '
+                     'and compared with list functions at every step. The suite only ever uses a pre-filled closed channel drained by ToSeq; this explores back-pressure, '
+                     'unbuffered hand-offs, partial consumption and early close.'),
+         level_note='trusts testing/synctest quiescence detection and the list oracles; runtime-owned select tie-breaks are sampled'))
+
+prop('C06',
+     level='exploration',
+     rule=('generated: all 13 stages (+StdErr wrapping, Lift/Try modes with failing elements, error values that wrap context.Canceled/DeadlineExceeded/io.EOF) x capacities x scripts in which '
+           'the cancel is placed by class (random position, first move, while the stage is blocked on an output nobody reads, inside a batch next to a send/receive/close, after all inputs closed, or never) '
+           'and closes at any position; 25% of the scenarios end with nobody receiving any more; plus a complete enumeration: cancel / close / two batch forms inserted at every position of a fixed 11-move script '
+           'for every stage, mode and capacity {0,1,3}; oracle: no process death (journal), delivered prefix of the uncancelled result at every receive (Fold/ForEach/Void: nothing or the full result), '
+           'uncancelled runs: every port closes under a fair consumer and no stage goroutine remains (goroutine census of the bubble; Throttling may keep one pacer); after cancel + close of all inputs with NO further receive: '
+           'census empty after a virtual horizon, then every port drains to "closed"; bubble exit without deadlock; '
+           'non-trivial = cancel while a producer is blocked / buffer full, or cancel inside a batch; distinct = different canonical scenario'),
+     assumptions=E3_ASSUME + ['goroutines are attributed to the stage by frames in github.com/fogfish/golem/pipe/v2 within the current bubble'],
+     parts=[
+         dict(name='cancel-enum', engine='E3', pkg='pipes', test='TestC06Cancel', kind='plain',
+              quick=dict(shards=8), thorough=dict(shards=16, timeout=3000, env=dict(VERIF_C06_REPEAT=8))),
+         dict(name='rapid', engine='E3', pkg='pipes', test='TestC06',
+              quick=dict(cases=6000, shards=8), thorough=dict(cases=150000, shards=16, timeout=3000)),
+     ],
+     manifest=dict(
+         engine='E3', design_ref='3/E3, 4/C06',
+         technique='property-based testing (rapid) of cancel/close/receive schedules in synctest bubbles; goroutine census, bubble deadlock detector, crash journal; exhaustive cancel-position enumeration on fixed scripts',
+         level_text=('Generated environment schedules with the cancel and the close at every kind of position, absent consumers included; leak and non-closure are decided by the '
+                     'bubble (all goroutines durably blocked) rather than by time-outs, so "never closes" is a definitive verdict for that schedule. Cancel positions of a fixed script are enumerated completely.'),
+         level_note='schedules are sampled (except the enumerated cancel positions); a library panic kills the child process and is recovered from the scenario journal'))
+
+prop('C07',
+     level='fault_enumeration',
+     rule=('enumerated: ALL 2^n subsets of failing positions for n <= 4 (quick) / 6 (thorough) x {Map lift, Map try, FMap liftf, FMap tryf, Emit lift, Emit try, Unfold lift} x capacity {0,1,2} x 5 consumer scripts '
+           '(values first, errors first, alternating, stepwise, fair only); generated: inputs up to 40 elements with duplicates, random failing value sets, random scripts, error values that wrap '
+           'context.Canceled / DeadlineExceeded / io.EOF, StdErr wrapping; oracle: exact value and error sequences per mode, both channels closed, call count = k+1 and elements removed <= k+1 under fail-fast, '
+           'fail-fast closes without waiting for further input, no stuck state under a fair consumer that reads the error channel; '
+           'non-trivial = at least one failing and one succeeding element with a success after the first failure; distinct = different canonical scenario'),
+     assumptions=E3_ASSUME + ['the error channel is always eventually read (proviso of the statement)', 'a failing arrow emits nothing before failing'],
+     parts=[
+         dict(name='enum', engine='E3', pkg='pipes', test='TestC07Enum', kind='plain',
+              quick=dict(shards=8), thorough=dict(shards=16, timeout=3000)),
+         dict(name='rapid', engine='E3', pkg='pipes', test='TestC07',
+              quick=dict(cases=4000, shards=8), thorough=dict(cases=100000, shards=16, timeout=3000)),
+     ],
+     manifest=dict(
+         engine='E3', design_ref='3/E3, 4/C07',
+         technique='fault enumeration (all failure masks up to a bound) + property-based testing (rapid) of longer inputs and consumer interleavings in synctest bubbles',
+         level_text=('Every subset of failing positions up to a bound is executed for every stage/mode/capacity/consumer order; beyond the bound masks and schedules are generated. '
+                     'The oracle is the exact pair of value and error sequences plus closure, so loss, duplication, reordering and hangs are all visible.'),
+         level_note='exhaustive only for n <= bound and the five canonical consumer scripts; schedules beyond are sampled'))
+
+prop('C12',
+     level='exploration',
+     rule=('generated: k in {0,1,2,3,4,5,9,12} inputs of 0..6 tagged elements (input*1000+seq), capacities 0..3 each, scripts of up to 40+4k moves interleaving sends/bursts/closes on all inputs and receives; '
+           'oracle at every receive: per-input subsequence of the delivered elements is a prefix of that input, no foreign element; if the output is observed closed: every input closed and fully delivered; completion: everything delivered then closed; '
+           'non-trivial = k >= 2, two non-empty inputs, sends alternate between inputs; distinct = different canonical scenario'),
+     assumptions=E3_ASSUME,
+     parts=[
+         dict(name='rapid', engine='E3', pkg='pipes', test='TestC12',
+              quick=dict(cases=6000, shards=4), thorough=dict(cases=100000, shards=16, timeout=3000)),
+     ],
+     manifest=dict(
+         engine='E3', design_ref='3/E3, 4/C12',
+         technique='property-based testing (rapid) of multi-input send/close/receive interleavings in synctest bubbles; per-input order invariant',
+         level_text='Interleavings of sends and closes over 0..12 inputs against a per-input prefix invariant and a closed-implies-all-drained check at every step.',
+         level_note='schedules sampled; elements are tagged so that their origin is known'))
+
 prop('C14',
      level='exploration',
      rule=('generated: expression trees of depth 1..6 over From, FromSlice (0..6 elements), nil, TakeWhile, DropWhile, Filter, Map, Plus, Join; '
